@@ -38,6 +38,7 @@ type LoopAnn struct {
 	Unroll   int
 	Body     *ssa.Function // checked at every back edge (what a completed iteration did)
 	BodyArgs []string
+	HeadArgs []string        // arguments of the head functions, when they differ from BodyArgs (locals that exist at the loop head)
 	Heads    []*ssa.Function // pure functions of BodyArgs evaluated at the loop head; results are passed to Body after its named arguments
 	Exit     *ssa.Function   // checked where the function returns from inside the loop (same arguments and head values as Body)
 }
@@ -736,6 +737,8 @@ func (db *SpecDB) readFile(prog *ssa.Program, p *packages.Package, spkg *ssa.Pac
 							}
 						case strings.HasPrefix(a, "args="):
 							la.BodyArgs = strings.Split(strings.TrimPrefix(a, "args="), ",")
+						case strings.HasPrefix(a, "headargs="):
+							la.HeadArgs = strings.Split(strings.TrimPrefix(a, "headargs="), ",")
 						case strings.HasPrefix(a, "head="):
 							for _, n := range strings.Split(strings.TrimPrefix(a, "head="), ",") {
 								if m := spkg.Func(n); m != nil {
